@@ -424,7 +424,7 @@ pub fn plan(tier: &str) -> Plan {
         }
     }
     let mut units = Vec::new();
-    let bound = if thorough { 2 } else { 1 };
+    let bound = if thorough { 3 } else { 2 };
     for sc in scs {
         units.push(Unit::explore(Job::new(format!("c08/{}", sc.name()), cfg.clone(), Some(bound), body(sc))));
     }
